@@ -1,4 +1,6 @@
 import BareModel.ExprParse
+import BareModel.Gen.Regex
+import BareProofs.C02Lemmas
 
 /-!
 # C02 — expression text parses to the tree the precedence rules dictate (binary-chain core)
@@ -330,5 +332,767 @@ example : parseChain (v "a") [(.add, v "b"), (.mul, v "c"), (.pow, v "d"), (.sub
 
 example : WFPrec (parseChain (v "a") (BinOp.all.map fun o => (o, v "x"))) :=
   chain_wf _ _ rfl (by intro x hx; simp [BinOp.all] at hx; rcases hx with h | h | h | h | h | h | h | h | h | h | h | h | h | h <;> subst h <;> rfl)
+
+
+/-! # Text level: `parseExpr` (mirror of `parse_expression`) -/
+
+open ExprScan
+
+/-! ### tokens of a chain -/
+
+def chainToks : List (BinOp × Expr) → List Tok
+  | [] => []
+  | (op, x) :: rest => .bin op :: (toks x ++ chainToks rest)
+
+theorem toks_ne_nil : ∀ e : Expr, toks e ≠ []
+  | .number _ | .string _ | .variable _ | .function _ _ | .unary _ _ | .group _ => by simp [toks]
+  | .binary _ _ _ => by simp [toks]
+
+theorem toks_ins (t : Expr) (op : BinOp) (r : Expr) : toks (ins t op r) = toks t ++ .bin op :: toks r := by
+  induction t using binInd with
+  | binary pl l rr _ ihr =>
+    simp only [ins]; split
+    · simp [toks, ihr]
+    · simp [toks]
+  | operand e he => cases e <;> simp_all [IsOperand, rootOp, ins, toks]
+
+theorem toks_parseChain (l : Expr) (ch : List (BinOp × Expr)) : toks (parseChain l ch) = toks l ++ chainToks ch := by
+  induction ch generalizing l with
+  | nil => simp [parseChain, chainToks]
+  | cons x xs ih =>
+    obtain ⟨op, r⟩ := x
+    simp [parseChain, chainToks, ih, insR_eq_ins, toks_ins]
+
+/-! ### hereditary well-formedness: the precedence conditions hold at *every* binary node of the tree (inside groups,
+call arguments and unary operands too), and the operand of a unary operator is never a bare binary node -/
+
+mutual
+def Inner : Expr → Prop
+  | .number _ => True
+  | .string _ => True
+  | .variable _ => True
+  | .function _ args => InnerArgs args
+  | .binary _ l r => Inner l ∧ Inner r
+  | .unary _ e => IsOperand e ∧ Inner e
+  | .group e => WFPrec e ∧ Inner e
+def InnerArgs : List Expr → Prop
+  | [] => True
+  | a :: rest => (WFPrec a ∧ Inner a) ∧ InnerArgs rest
+end
+
+/-- hereditarily precedence-respecting -/
+def HWF (e : Expr) : Prop := WFPrec e ∧ Inner e
+
+theorem Inner_ins (t : Expr) (op : BinOp) (r : Expr) (ht : Inner t) (hr : Inner r) : Inner (ins t op r) := by
+  induction t using binInd with
+  | binary pl l rr _ ihr =>
+    simp only [Inner] at ht
+    simp only [ins]; split
+    · exact ⟨ht.1, ihr ht.2⟩
+    · exact ⟨⟨ht.1, ht.2⟩, hr⟩
+  | operand e he =>
+    have : ins e op r = .binary op e r := by cases e <;> simp_all [IsOperand, rootOp, ins]
+    rw [this]; exact ⟨ht, hr⟩
+
+theorem Inner_parseChain (l : Expr) (ch : List (BinOp × Expr)) (hl : Inner l) (hch : ∀ x ∈ ch, Inner x.2) :
+    Inner (parseChain l ch) := by
+  induction ch generalizing l with
+  | nil => simpa [parseChain]
+  | cons x xs ih =>
+    simp only [parseChain, insR_eq_ins]
+    exact ih _ (Inner_ins l x.1 x.2 hl (hch x (List.mem_cons_self ..))) (fun y hy => hch y (List.mem_cons_of_mem _ hy))
+
+theorem InnerArgs_append (args : List Expr) (a : Expr) (h : InnerArgs args) (ha : WFPrec a ∧ Inner a) :
+    InnerArgs (args ++ [a]) := by
+  induction args with
+  | nil => exact ⟨ha, trivial⟩
+  | cons b bs ih => exact ⟨h.1, ih h.2⟩
+
+/-! ### what a successful parse step consumed -/
+
+/-- the (operator, operand) pairs the chain loop scans from `t`, left to right, stopping at `rest` where no binary
+operator follows -/
+inductive ChainScan (pu : List Char → Res (Expr × List Char)) : List Char → List (BinOp × Expr) → List Char → Prop
+  | done (t : List Char) : scanBinOp t = none → ChainScan pu t [] t
+  | step (t rt nt rest : List Char) (op : BinOp) (r : Expr) (ch : List (BinOp × Expr)) :
+      scanBinOp t = some (op, rt) → pu rt = .ok (r, nt) → ChainScan pu nt ch rest → ChainScan pu t ((op, r) :: ch) rest
+
+/-- result of a unary-level parse: consumed text spells the tokens of the tree; the tree is a chain operand -/
+structure Good (t : List Char) (e : Expr) (r : List Char) : Prop where
+  seg : ∃ pre, t = pre ++ r ∧ Seg pre (toks e)
+  operand : IsOperand e
+  inner : Inner e
+
+/-- result of a binary-level parse -/
+structure GoodB (t : List Char) (e : Expr) (r : List Char) : Prop where
+  seg : ∃ pre, t = pre ++ r ∧ Seg pre (toks e)
+  wf : WFPrec e
+  inner : Inner e
+
+theorem chainLoop_scan (pu : List Char → Res (Expr × List Char)) :
+    ∀ (n : Nat) (l : Expr) (t : List Char) (e : Expr) (r : List Char), chainLoop pu n l t = .ok (e, r) →
+      ∃ ch, ChainScan pu t ch r ∧ e = parseChain l ch := by
+  intro n
+  induction n with
+  | zero =>
+    intro l t e r h
+    simp only [chainLoop] at h
+    split at h
+    · rename_i hnone
+      simp only [Except.ok.injEq, Prod.mk.injEq] at h
+      obtain ⟨rfl, rfl⟩ := h
+      exact ⟨[], ChainScan.done _ hnone, rfl⟩
+    · cases h
+  | succ n ih =>
+    intro l t e r h
+    simp only [chainLoop] at h
+    split at h
+    · rename_i hnone
+      simp only [Except.ok.injEq, Prod.mk.injEq] at h
+      obtain ⟨rfl, rfl⟩ := h
+      exact ⟨[], ChainScan.done _ hnone, rfl⟩
+    · rename_i op rt hsome
+      split at h
+      · cases h
+      · rename_i x nt hpu
+        obtain ⟨ch, hcs, he⟩ := ih _ _ _ _ h
+        exact ⟨(op, x) :: ch, ChainScan.step _ _ _ _ _ _ _ hsome hpu hcs, by simpa [parseChain] using he⟩
+
+theorem chainScan_good {pu : List Char → Res (Expr × List Char)} (hpu : ∀ t e r, pu t = .ok (e, r) → Good t e r)
+    {t r : List Char} {ch : List (BinOp × Expr)} (h : ChainScan pu t ch r) :
+    (∃ pre, t = pre ++ r ∧ Seg pre (chainToks ch)) ∧ (∀ x ∈ ch, IsOperand x.2) ∧ (∀ x ∈ ch, Inner x.2) := by
+  induction h with
+  | done t _ => exact ⟨⟨[], rfl, Seg.nil⟩, by simp, by simp⟩
+  | step t rt nt rest op x ch hop hx _ ih =>
+    obtain ⟨⟨pre2, hnt, hseg2⟩, hops, hinn⟩ := ih
+    obtain ⟨ws, body, ht, hws, hsp⟩ := scanBinOp_spec hop
+    obtain ⟨⟨pre1, hrt, hseg1⟩, hxo, hxi⟩ := hpu _ _ _ hx
+    refine ⟨⟨(ws ++ body) ++ (pre1 ++ pre2), ?_, ?_⟩, ?_, ?_⟩
+    · rw [ht, hrt, hnt]; simp
+    · have := (Seg.single hws hsp).append (hseg1.append hseg2)
+      simpa [chainToks] using this
+    · intro y hy; rcases List.mem_cons.mp hy with h | h
+      · subst h; exact hxo
+      · exact hops y h
+    · intro y hy; rcases List.mem_cons.mp hy with h | h
+      · subst h; exact hxi
+      · exact hinn y h
+
+theorem binaryWith_scan (pu : List Char → Res (Expr × List Char)) (n : Nat) (t : List Char) (e : Expr) (r : List Char)
+    (h : binaryWith pu n t = .ok (e, r)) :
+    ∃ u0 t0 ch, pu t = .ok (u0, t0) ∧ ChainScan pu t0 ch r ∧ e = parseChain u0 ch := by
+  simp only [binaryWith] at h
+  split at h
+  · cases h
+  · rename_i u0 t0 hu
+    obtain ⟨ch, hcs, he⟩ := chainLoop_scan pu _ _ _ _ _ h
+    exact ⟨u0, t0, ch, hu, hcs, he⟩
+
+theorem binaryWith_good {pu : List Char → Res (Expr × List Char)} (hpu : ∀ t e r, pu t = .ok (e, r) → Good t e r)
+    (n : Nat) (t : List Char) (e : Expr) (r : List Char) (h : binaryWith pu n t = .ok (e, r)) : GoodB t e r := by
+  obtain ⟨u0, t0, ch, hu, hcs, rfl⟩ := binaryWith_scan pu n t e r h
+  obtain ⟨⟨pre0, ht, hseg0⟩, hu0, hi0⟩ := hpu _ _ _ hu
+  obtain ⟨⟨pre1, ht0, hseg1⟩, hops, hinn⟩ := chainScan_good hpu hcs
+  refine ⟨⟨pre0 ++ pre1, by rw [ht, ht0]; simp, ?_⟩, chain_wf u0 ch hu0 hops, Inner_parseChain u0 ch hi0 hinn⟩
+  rw [toks_parseChain]; exact hseg0.append hseg1
+
+
+/-- tokens the argument loop still has to see: further arguments (behind commas unless none was parsed yet), then `)` -/
+def argTail (args more : List Expr) : List Tok :=
+  (if args.isEmpty then toksArgs more else toksMore more) ++ [.rparen]
+
+theorem argsLoop_good {pb : List Char → Res (Expr × List Char)} (hpb : ∀ t e r, pb t = .ok (e, r) → GoodB t e r) :
+    ∀ (n : Nat) (args : List Expr) (t : List Char) (as : List Expr) (r : List Char),
+      argsLoop pb n args t = .ok (as, r) →
+      ∃ more pre, as = args ++ more ∧ t = pre ++ r ∧ Seg pre (argTail args more) ∧ InnerArgs more := by
+  intro n
+  induction n with
+  | zero => intro args t as r h; simp [argsLoop] at h
+  | succ n ih =>
+    intro args t as r h
+    simp only [argsLoop] at h
+    split at h
+    · rename_i r' hclose
+      simp only [Except.ok.injEq, Prod.mk.injEq] at h
+      obtain ⟨rfl, rfl⟩ := h
+      obtain ⟨ws, body, ht, hws, hsp⟩ := scanClose_spec hclose
+      refine ⟨[], ws ++ body, by simp, by rw [ht]; simp, ?_, trivial⟩
+      have := Seg.single hws hsp
+      simpa [argTail, toksArgs, toksMore] using this
+    · split at h
+      · cases h
+      · rename_i t1 hsep
+        split at h
+        · cases h
+        · rename_i a nt hpa
+          obtain ⟨more, pre2, has, hnt, hseg2, hinn⟩ := ih _ _ _ _ h
+          obtain ⟨⟨pre1, ht1, hseg1⟩, hwf, hia⟩ := hpb _ _ _ hpa
+          have hne : (args ++ [a]).isEmpty = false := by simp
+          simp only [argTail, hne] at hseg2
+          by_cases hargs : args.isEmpty
+          · simp only [hargs, if_true, Option.some.injEq] at hsep
+            subst hsep
+            refine ⟨a :: more, pre1 ++ pre2, by simp [has], by rw [ht1, hnt]; simp, ?_, ⟨⟨hwf, hia⟩, hinn⟩⟩
+            have := hseg1.append hseg2
+            simpa [argTail, hargs, toksArgs] using this
+          · simp only [hargs, if_false] at hsep
+            obtain ⟨ws, body, ht, hws, hsp⟩ := scanComma_spec hsep
+            refine ⟨a :: more, (ws ++ body) ++ (pre1 ++ pre2), by simp [has], by rw [ht, ht1, hnt]; simp, ?_, ⟨⟨hwf, hia⟩, hinn⟩⟩
+            have := (Seg.single hws hsp).append (hseg1.append hseg2)
+            simpa [argTail, hargs, toksMore] using this
+
+theorem parseAtom_good (t : List Char) (e : Expr) (r : List Char) (h : parseAtom t = .ok (e, r)) : Good t e r := by
+  unfold parseAtom at h
+  split at h
+  · rename_i q r' hs
+    simp only [Except.ok.injEq, Prod.mk.injEq] at h
+    obtain ⟨rfl, rfl⟩ := h
+    obtain ⟨ws, body, ht, hws, hsp⟩ := scanNumber_spec hs
+    exact ⟨⟨ws ++ body, by rw [ht]; simp, by simpa [toks] using Seg.single hws hsp⟩, rfl, trivial⟩
+  · split at h
+    · rename_i s r' hs
+      simp only [Except.ok.injEq, Prod.mk.injEq] at h
+      obtain ⟨rfl, rfl⟩ := h
+      obtain ⟨ws, body, ht, hws, hsp⟩ := scanString_spec (Or.inl rfl) hs
+      exact ⟨⟨ws ++ body, by rw [ht]; simp, by simpa [toks] using Seg.single hws hsp⟩, rfl, trivial⟩
+    · split at h
+      · rename_i s r' hs
+        simp only [Except.ok.injEq, Prod.mk.injEq] at h
+        obtain ⟨rfl, rfl⟩ := h
+        obtain ⟨ws, body, ht, hws, hsp⟩ := scanString_spec (Or.inr rfl) hs
+        exact ⟨⟨ws ++ body, by rw [ht]; simp, by simpa [toks] using Seg.single hws hsp⟩, rfl, trivial⟩
+      · split at h
+        · rename_i n r' hs
+          simp only [Except.ok.injEq, Prod.mk.injEq] at h
+          obtain ⟨rfl, rfl⟩ := h
+          obtain ⟨ws, ht, hws, hid⟩ := scanVariable_spec hs
+          exact ⟨⟨ws ++ n, by rw [ht]; simp, by simpa [toks] using Seg.single hws (Spell.var n hid)⟩, rfl, trivial⟩
+        · split at h
+          · rename_i n r' hs
+            simp only [Except.ok.injEq, Prod.mk.injEq] at h
+            obtain ⟨rfl, rfl⟩ := h
+            obtain ⟨ws, body, ht, hws, hsp⟩ := scanVariableEx_spec hs
+            exact ⟨⟨ws ++ body, by rw [ht]; simp, by simpa [toks] using Seg.single hws hsp⟩, rfl, trivial⟩
+          · cases h
+
+/-- every successful unary-level parse consumed a spelling of the tokens of the tree it returns, and returns a chain
+operand whose inside is hereditarily precedence-respecting -/
+theorem parseUnary_good : ∀ (fuel : Nat) (t : List Char) (e : Expr) (r : List Char),
+    parseUnary fuel t = .ok (e, r) → Good t e r := by
+  intro fuel
+  induction fuel with
+  | zero =>
+    intro t e r h
+    simp only [parseUnary] at h
+    split at h
+    · cases h
+    · exact parseAtom_good t e r h
+  | succ fuel ih =>
+    intro t e r h
+    simp only [parseUnary] at h
+    split at h
+    · -- group
+      rename_i gt hopen
+      split at h
+      · cases h
+      · rename_i e' nt hb
+        split at h
+        · cases h
+        · rename_i r' hclose
+          simp only [Except.ok.injEq, Prod.mk.injEq] at h
+          obtain ⟨rfl, rfl⟩ := h
+          obtain ⟨⟨preB, hgt, hsegB⟩, hwf, hinn⟩ := binaryWith_good ih _ _ _ _ hb
+          obtain ⟨ws1, b1, ht, hws1, hsp1⟩ := scanGroupOpen_spec hopen
+          obtain ⟨ws2, b2, hnt, hws2, hsp2⟩ := scanClose_spec hclose
+          refine ⟨⟨(ws1 ++ b1) ++ (preB ++ (ws2 ++ b2)), by rw [ht, hgt, hnt]; simp, ?_⟩, rfl, ⟨hwf, hinn⟩⟩
+          have := (Seg.single hws1 hsp1).append (hsegB.append (Seg.single hws2 hsp2))
+          simpa [toks] using this
+    · split at h
+      · -- unary operator
+        rename_i op ut hun
+        split at h
+        · cases h
+        · rename_i e' nt hu
+          simp only [Except.ok.injEq, Prod.mk.injEq] at h
+          obtain ⟨rfl, rfl⟩ := h
+          obtain ⟨⟨pre, hut, hseg⟩, hop, hinn⟩ := ih _ _ _ hu
+          obtain ⟨ws, b, ht, hws, hsp⟩ := scanUnaryOp_spec hun
+          refine ⟨⟨(ws ++ b) ++ pre, by rw [ht, hut]; simp, ?_⟩, rfl, ⟨hop, hinn⟩⟩
+          have := (Seg.single hws hsp).append hseg
+          simpa [toks] using this
+      · split at h
+        · -- function call
+          rename_i name argText hfn
+          split at h
+          · cases h
+          · rename_i args r' ha
+            simp only [Except.ok.injEq, Prod.mk.injEq] at h
+            obtain ⟨rfl, rfl⟩ := h
+            obtain ⟨more, pre, has, hat, hseg, hinn⟩ := argsLoop_good (fun t e r h => binaryWith_good ih fuel t e r h) _ _ _ _ _ ha
+            obtain ⟨ws, ws2, ht, hws, hws2, hid, hlen⟩ := scanFuncOpen_spec hfn
+            simp only [List.nil_append] at has
+            subst has
+            refine ⟨⟨(ws ++ (name ++ (ws2 ++ ['(']))) ++ pre, by rw [ht, hat]; simp, ?_⟩, rfl, hinn⟩
+            have := (Seg.single hws (Spell.call name ws2 hid hlen hws2)).append hseg
+            simpa [toks, argTail] using this
+        · exact parseAtom_good t e r h
+
+
+/-! ### failures: where they point, what they say, and that fuel never runs out -/
+
+/-- the two error texts of the expression parser -/
+def Msg (m : String) : Prop := m = "Syntax error" ∨ m = "Unmatched parenthesis"
+
+theorem fuelMsg_not_Msg : ¬ Msg fuelMsg := by simp [Msg, fuelMsg]
+
+/-- an error of `f` on `t` carries a suffix of `t` (the remaining text at the point of failure) and one of the two parser
+error texts; the fuel marker can only appear when the text is longer than `k` -/
+def ErrP {α : Type} (k : Nat) (f : List Char → Res α) : Prop :=
+  ∀ t m l, f t = .error (m, l) → l <:+ t ∧ (Msg m ∨ (m = fuelMsg ∧ k < t.length))
+
+/-- a success of `f` returns a strictly shorter suffix -/
+def OkShort {β : Type} (f : List Char → Res (β × List Char)) : Prop :=
+  ∀ t e r, f t = .ok (e, r) → r <:+ t ∧ r.length < t.length
+
+theorem consumed {t ws body r : List Char} (ht : t = ws ++ (body ++ r)) (hb : body ≠ []) : r <:+ t ∧ r.length < t.length := by
+  subst ht
+  refine ⟨⟨ws ++ body, by simp⟩, ?_⟩
+  cases body with
+  | nil => exact absurd rfl hb
+  | cons b bs => simp; omega
+
+theorem short_of_seg {t pre r : List Char} {ts : List Tok} (ht : t = pre ++ r) (hs : Seg pre ts) (hne : ts ≠ []) :
+    r <:+ t ∧ r.length < t.length := by
+  subst ht
+  refine ⟨List.suffix_append _ _, ?_⟩
+  cases ts with
+  | nil => exact absurd rfl hne
+  | cons tok ts =>
+    have := hs.ne_nil
+    cases pre with
+    | nil => exact absurd rfl this
+    | cons p ps => simp; omega
+
+theorem parseUnary_short (fuel : Nat) : OkShort (parseUnary fuel) := by
+  intro t e r h
+  obtain ⟨⟨pre, ht, hseg⟩, _, _⟩ := parseUnary_good fuel t e r h
+  exact short_of_seg ht hseg (toks_ne_nil e)
+
+theorem binaryWith_short (fuel n : Nat) : OkShort (binaryWith (parseUnary fuel) n) := by
+  intro t e r h
+  obtain ⟨⟨pre, ht, hseg⟩, _, _⟩ := binaryWith_good (parseUnary_good fuel) n t e r h
+  exact short_of_seg ht hseg (toks_ne_nil e)
+
+theorem chainLoop_err {pu : List Char → Res (Expr × List Char)} {k : Nat} (hok : OkShort pu) (herr : ErrP k pu) :
+    ∀ (n : Nat) (l : Expr) (t : List Char) (m : String) (ln : List Char), chainLoop pu n l t = .error (m, ln) →
+      ln <:+ t ∧ (Msg m ∨ (m = fuelMsg ∧ (k < t.length ∨ n < t.length))) := by
+  intro n
+  induction n with
+  | zero =>
+    intro l t m ln h
+    simp only [chainLoop] at h
+    split at h
+    · cases h
+    · rename_i x hsome
+      obtain ⟨op, rt⟩ := x
+      simp only [Except.error.injEq, Prod.mk.injEq] at h
+      obtain ⟨rfl, rfl⟩ := h
+      obtain ⟨ws, body, ht, _, hsp⟩ := scanBinOp_spec hsome
+      have := (consumed ht hsp.ne_nil).2
+      exact ⟨List.suffix_refl _, Or.inr ⟨rfl, Or.inr (by omega)⟩⟩
+  | succ n ih =>
+    intro l t m ln h
+    simp only [chainLoop] at h
+    split at h
+    · cases h
+    · rename_i op rt hsome
+      obtain ⟨ws, body, ht, _, hsp⟩ := scanBinOp_spec hsome
+      obtain ⟨hsuf, hlen⟩ := consumed ht hsp.ne_nil
+      split at h
+      · rename_i e hpu
+        obtain ⟨m', l'⟩ := e
+        simp only [Except.error.injEq, Prod.mk.injEq] at h
+        obtain ⟨rfl, rfl⟩ := h
+        obtain ⟨hs, hm⟩ := herr _ _ _ hpu
+        refine ⟨hs.trans hsuf, ?_⟩
+        rcases hm with hm | ⟨hm, hk⟩
+        · exact Or.inl hm
+        · exact Or.inr ⟨hm, Or.inl (by omega)⟩
+      · rename_i x nt hpu
+        obtain ⟨hs2, hl2⟩ := hok _ _ _ hpu
+        obtain ⟨hs, hm⟩ := ih _ _ _ _ h
+        refine ⟨(hs.trans hs2).trans hsuf, ?_⟩
+        rcases hm with hm | ⟨hm, hk | hk⟩
+        · exact Or.inl hm
+        · exact Or.inr ⟨hm, Or.inl (by omega)⟩
+        · exact Or.inr ⟨hm, Or.inr (by omega)⟩
+
+theorem binaryWith_err {pu : List Char → Res (Expr × List Char)} {k : Nat} (hok : OkShort pu) (herr : ErrP k pu)
+    (n : Nat) (t : List Char) (m : String) (ln : List Char) (h : binaryWith pu n t = .error (m, ln)) :
+    ln <:+ t ∧ (Msg m ∨ (m = fuelMsg ∧ (k < t.length ∨ n < t.length))) := by
+  simp only [binaryWith] at h
+  split at h
+  · rename_i e hpu
+    obtain ⟨m', l'⟩ := e
+    simp only [Except.error.injEq, Prod.mk.injEq] at h
+    obtain ⟨rfl, rfl⟩ := h
+    obtain ⟨hs, hm⟩ := herr _ _ _ hpu
+    refine ⟨hs, ?_⟩
+    rcases hm with hm | ⟨hm, hk⟩
+    · exact Or.inl hm
+    · exact Or.inr ⟨hm, Or.inl hk⟩
+  · rename_i u0 t0 hpu
+    obtain ⟨hs2, hl2⟩ := hok _ _ _ hpu
+    obtain ⟨hs, hm⟩ := chainLoop_err hok herr _ _ _ _ _ h
+    refine ⟨hs.trans hs2, ?_⟩
+    rcases hm with hm | ⟨hm, hk | hk⟩
+    · exact Or.inl hm
+    · exact Or.inr ⟨hm, Or.inl (by omega)⟩
+    · exact Or.inr ⟨hm, Or.inr (by omega)⟩
+
+theorem argsLoop_err {pb : List Char → Res (Expr × List Char)} {k : Nat} (hok : OkShort pb) (herr : ErrP k pb) :
+    ∀ (n : Nat) (args : List Expr) (t : List Char) (m : String) (ln : List Char), argsLoop pb n args t = .error (m, ln) →
+      ln <:+ t ∧ (Msg m ∨ (m = fuelMsg ∧ (k < t.length ∨ n ≤ t.length))) := by
+  intro n
+  induction n with
+  | zero =>
+    intro args t m ln h
+    simp only [argsLoop, Except.error.injEq, Prod.mk.injEq] at h
+    obtain ⟨rfl, rfl⟩ := h
+    exact ⟨List.suffix_refl _, Or.inr ⟨rfl, Or.inr (Nat.zero_le _)⟩⟩
+  | succ n ih =>
+    intro args t m ln h
+    simp only [argsLoop] at h
+    split at h
+    · cases h
+    · split at h
+      · simp only [Except.error.injEq, Prod.mk.injEq] at h
+        obtain ⟨rfl, rfl⟩ := h
+        exact ⟨List.suffix_refl _, Or.inl (Or.inl rfl)⟩
+      · rename_i t1 hsep
+        have ht1 : t1 <:+ t ∧ t1.length ≤ t.length := by
+          by_cases hargs : args.isEmpty
+          · simp only [hargs, if_true, Option.some.injEq] at hsep
+            subst hsep; exact ⟨List.suffix_refl _, Nat.le_refl _⟩
+          · simp only [hargs, if_false] at hsep
+            obtain ⟨ws, body, ht, _, hsp⟩ := scanComma_spec hsep
+            have := consumed ht hsp.ne_nil
+            exact ⟨this.1, by omega⟩
+        split at h
+        · rename_i e hpb
+          obtain ⟨m', l'⟩ := e
+          simp only [Except.error.injEq, Prod.mk.injEq] at h
+          obtain ⟨rfl, rfl⟩ := h
+          obtain ⟨hs, hm⟩ := herr _ _ _ hpb
+          refine ⟨hs.trans ht1.1, ?_⟩
+          rcases hm with hm | ⟨hm, hk⟩
+          · exact Or.inl hm
+          · exact Or.inr ⟨hm, Or.inl (by omega)⟩
+        · rename_i a nt hpb
+          obtain ⟨hs2, hl2⟩ := hok _ _ _ hpb
+          obtain ⟨hs, hm⟩ := ih _ _ _ _ h
+          refine ⟨(hs.trans hs2).trans ht1.1, ?_⟩
+          rcases hm with hm | ⟨hm, hk | hk⟩
+          · exact Or.inl hm
+          · exact Or.inr ⟨hm, Or.inl (by omega)⟩
+          · exact Or.inr ⟨hm, Or.inr (by omega)⟩
+
+theorem parseAtom_err (t : List Char) (m : String) (l : List Char) (h : parseAtom t = .error (m, l)) :
+    l = t ∧ m = "Syntax error" := by
+  unfold parseAtom at h
+  repeat (split at h; · cases h)
+  simp only [Except.error.injEq, Prod.mk.injEq] at h
+  exact ⟨h.2.symm, h.1.symm⟩
+
+theorem parseUnary_err : ∀ fuel : Nat, ErrP fuel (parseUnary fuel) := by
+  intro fuel
+  induction fuel with
+  | zero =>
+    intro t m l h
+    simp only [parseUnary] at h
+    split at h
+    · rename_i hcond
+      simp only [Except.error.injEq, Prod.mk.injEq] at h
+      obtain ⟨rfl, rfl⟩ := h
+      refine ⟨List.suffix_refl _, Or.inr ⟨rfl, ?_⟩⟩
+      cases t with
+      | nil => simp [scanGroupOpen, scanChar, scanUnaryOp, scanFuncOpen, skipWs, firstAlt, unOpAlts, stripPrefix?] at hcond
+      | cons c cs => simp
+    · obtain ⟨rfl, rfl⟩ := parseAtom_err t m l h
+      exact ⟨List.suffix_refl _, Or.inl (Or.inl rfl)⟩
+  | succ fuel ih =>
+    intro t m l h
+    have hbin : ErrP fuel (binaryWith (parseUnary fuel) fuel) := by
+      intro t' m' l' h'
+      obtain ⟨hs, hm⟩ := binaryWith_err (parseUnary_short fuel) ih fuel t' m' l' h'
+      refine ⟨hs, ?_⟩
+      rcases hm with hm | ⟨hm, hk | hk⟩
+      · exact Or.inl hm
+      · exact Or.inr ⟨hm, hk⟩
+      · exact Or.inr ⟨hm, hk⟩
+    simp only [parseUnary] at h
+    split at h
+    · -- group
+      rename_i gt hopen
+      obtain ⟨ws, body, ht, _, hsp⟩ := scanGroupOpen_spec hopen
+      obtain ⟨hsuf, hlen⟩ := consumed ht hsp.ne_nil
+      split at h
+      · rename_i e hb
+        obtain ⟨m', l'⟩ := e
+        simp only [Except.error.injEq, Prod.mk.injEq] at h
+        obtain ⟨rfl, rfl⟩ := h
+        obtain ⟨hs, hm⟩ := hbin _ _ _ hb
+        refine ⟨hs.trans hsuf, ?_⟩
+        rcases hm with hm | ⟨hm, hk⟩
+        · exact Or.inl hm
+        · exact Or.inr ⟨hm, by omega⟩
+      · split at h
+        · simp only [Except.error.injEq, Prod.mk.injEq] at h
+          obtain ⟨rfl, rfl⟩ := h
+          exact ⟨List.suffix_refl _, Or.inl (Or.inr rfl)⟩
+        · cases h
+    · split at h
+      · -- unary operator
+        rename_i op ut hun
+        obtain ⟨ws, body, ht, _, hsp⟩ := scanUnaryOp_spec hun
+        obtain ⟨hsuf, hlen⟩ := consumed ht hsp.ne_nil
+        split at h
+        · rename_i e hu
+          obtain ⟨m', l'⟩ := e
+          simp only [Except.error.injEq, Prod.mk.injEq] at h
+          obtain ⟨rfl, rfl⟩ := h
+          obtain ⟨hs, hm⟩ := ih _ _ _ hu
+          refine ⟨hs.trans hsuf, ?_⟩
+          rcases hm with hm | ⟨hm, hk⟩
+          · exact Or.inl hm
+          · exact Or.inr ⟨hm, by omega⟩
+        · cases h
+      · split at h
+        · -- function call
+          rename_i name argText hfn
+          obtain ⟨ws, ws2, ht, _, _, hid, hlen2⟩ := scanFuncOpen_spec hfn
+          have hsuf : argText <:+ t := ⟨ws ++ (name ++ (ws2 ++ ['('])), by rw [ht]; simp⟩
+          have hlen : argText.length + 3 ≤ t.length := by rw [ht]; simp; omega
+          split at h
+          · rename_i e ha
+            obtain ⟨m', l'⟩ := e
+            simp only [Except.error.injEq, Prod.mk.injEq] at h
+            obtain ⟨rfl, rfl⟩ := h
+            obtain ⟨hs, hm⟩ := argsLoop_err (binaryWith_short fuel fuel) hbin _ _ _ _ _ ha
+            refine ⟨hs.trans hsuf, ?_⟩
+            rcases hm with hm | ⟨hm, hk | hk⟩
+            · exact Or.inl hm
+            · exact Or.inr ⟨hm, by omega⟩
+            · exact Or.inr ⟨hm, by omega⟩
+          · cases h
+        · obtain ⟨rfl, rfl⟩ := parseAtom_err t m l h
+          exact ⟨List.suffix_refl _, Or.inl (Or.inl rfl)⟩
+
+theorem parseBinary_err (fuel : Nat) : ErrP fuel (parseBinary fuel) := by
+  intro t m l h
+  obtain ⟨hs, hm⟩ := binaryWith_err (parseUnary_short fuel) (parseUnary_err fuel) fuel t m l h
+  refine ⟨hs, ?_⟩
+  rcases hm with hm | ⟨hm, hk | hk⟩
+  · exact Or.inl hm
+  · exact Or.inr ⟨hm, hk⟩
+  · exact Or.inr ⟨hm, hk⟩
+
+
+/-! ## The property theorems at text level -/
+
+/-- the 15 token patterns the scanners of `BareModel/ExprScan.lean` were written for (name, pattern source, flags) -/
+def pinnedRegexes : List (String × String × Nat) :=
+  [
+   ("parser._R_EXPR_BINARY_OP", "^\\s*(\\*\\*|\\*|\\/|%|\\+|-|<=|<|>=|>|==|!=|&&|\\|\\|)", 32),
+   ("parser._R_EXPR_UNARY_OP", "^\\s*(!|-)", 32),
+   ("parser._R_EXPR_FUNCTION_OPEN", "^\\s*([A-Za-z_]\\w+)\\s*\\(", 32),
+   ("parser._R_EXPR_FUNCTION_SEPARATOR", "^\\s*,", 32),
+   ("parser._R_EXPR_FUNCTION_CLOSE", "^\\s*\\)", 32),
+   ("parser._R_EXPR_GROUP_OPEN", "^\\s*\\(", 32),
+   ("parser._R_EXPR_GROUP_CLOSE", "^\\s*\\)", 32),
+   ("parser._R_EXPR_NUMBER", "^\\s*([+-]?\\d+(?:\\.\\d*)?(?:e[+-]\\d+)?)", 32),
+   ("parser._R_EXPR_STRING", "^\\s*'((?:\\\\\\\\|\\\\'|[^'])*)'", 32),
+   ("parser._R_EXPR_STRING_ESCAPE", "\\\\([\\\\\\'])", 32),
+   ("parser._R_EXPR_STRING_DOUBLE", "^\\s*\"((?:\\\\\\\\|\\\\\"|[^\"])*)\"", 32),
+   ("parser._R_EXPR_STRING_DOUBLE_ESCAPE", "\\\\([\\\\\"])", 32),
+   ("parser._R_EXPR_VARIABLE", "^\\s*([A-Za-z_]\\w*)", 32),
+   ("parser._R_EXPR_VARIABLE_EX", "^\\s*\\[\\s*((?:\\\\\\]|[^\\]])+)\\s*\\]", 32),
+   ("parser._R_EXPR_VARIABLE_EX_ESCAPE", "\\\\([\\\\\\]])", 32)
+  ]
+
+/-- **regex_sources_pinned**: the token patterns in the working tree (regenerated into `Gen.regexes` on every run) are
+exactly the ones the hand-written scanners mirror — alternation order of the operators, `\w+` in the call pattern,
+the optional parts of the number pattern, the escape alternatives of strings and bracketed names.  A changed pattern
+breaks this obligation (and then the correspondence streams and the search decide what it means). -/
+theorem regex_sources_pinned :
+    pinnedRegexes.map (fun r => (r.1, Gen.regexes.lookup r.1)) = pinnedRegexes.map (fun r => (r.1, some r.2)) := by
+  decide
+
+
+/-- **parse_uses_chain**: the binary level of the text parser is the proved chain parser — whenever
+`_parse_binary_expression` succeeds, its result is `parseChain` of the first unary-level operand and of the
+(operator, operand) pairs it scanned left to right (`ChainScan`), and all of those are chain operands.  Hence every
+theorem about `parseChain` (`chain_flat`, `chain_wf`, `chain_is_the_prec_tree`) applies to what the text parser built. -/
+theorem parse_uses_chain (fuel : Nat) (text : List Char) (e : Expr) (rest : List Char)
+    (h : parseBinary fuel text = .ok (e, rest)) :
+    ∃ u0 t0 ch, parseUnary fuel text = .ok (u0, t0) ∧ ChainScan (parseUnary fuel) t0 ch rest ∧
+      e = parseChain u0 ch ∧ IsOperand u0 ∧ (∀ x ∈ ch, IsOperand x.2) ∧
+      (∀ t, (WFPrec t ∧ first t = u0 ∧ chain t = ch) ↔ t = e) := by
+  obtain ⟨u0, t0, ch, hu, hcs, he⟩ := binaryWith_scan _ _ _ _ _ h
+  have hu0 := (parseUnary_good fuel _ _ _ hu).operand
+  have hops := (chainScan_good (parseUnary_good fuel) hcs).2.1
+  exact ⟨u0, t0, ch, hu, hcs, he, hu0, hops, fun t => by rw [he]; exact chain_is_the_prec_tree u0 ch hu0 hops t⟩
+
+/-- the same at the level of `parse_expression`: an accepted text yields `parseChain` of scanned operands -/
+theorem parseExpr_ok_iff (s : String) (e : Expr) :
+    parseExpr s = .ok e ↔ ∃ rest, parseBinary s.toList.length s.toList = .ok (e, rest) ∧ (skipWs rest).isEmpty = true := by
+  simp only [parseExpr, parseExprL]
+  generalize parseBinary s.toList.length s.toList = res
+  match res with
+  | .ok (e', nt) =>
+    by_cases hblank : (skipWs nt).isEmpty = true
+    · simp only [hblank, if_true]
+      constructor
+      · intro h; cases h; exact ⟨nt, rfl, hblank⟩
+      · rintro ⟨rest, hr, _⟩; cases hr; rfl
+    · simp only [hblank]
+      constructor
+      · intro h; cases h
+      · rintro ⟨rest, hr, hb'⟩; cases hr; exact absurd hb' hblank
+  | .error (m, l) =>
+    constructor
+    · intro h; cases h
+    · rintro ⟨rest, hr, _⟩; cases hr
+
+/-- **parse_deep_wf**: every accepted tree is *hereditarily* precedence-respecting: at every binary node of the tree —
+at the top, inside groups, inside call arguments, under unary operators — the left child (if a bare binary node) has
+precedence ≥ the node's and the right child strictly greater, and the operand of a unary operator is never a bare
+binary node.  With `wf_unique` this is *the* tree the precedence levels and left associativity dictate for the token
+sequence of the text (`accept_faithful`), for texts of any length and nesting depth. -/
+theorem parse_deep_wf (s : String) (e : Expr) (h : parseExpr s = .ok e) : HWF e := by
+  obtain ⟨rest, hb, _⟩ := (parseExpr_ok_iff s e).mp h
+  have := binaryWith_good (parseUnary_good _) _ _ _ _ hb
+  exact ⟨this.wf, this.inner⟩
+
+/-- **unary_tighter**: what a unary operator is applied to is a single unary-level operand (a literal, a variable, a
+call, a group or another unary application), never a binary chain: `-a ** b` is `(-a) ** b`.  And the unary application
+itself is a leaf for the enclosing chain. -/
+theorem unary_tighter (fuel : Nat) (text : List Char) (op : UnOp) (x : Expr) (rest : List Char)
+    (h : parseUnary fuel text = .ok (.unary op x, rest)) : IsOperand x ∧ IsOperand (.unary op x) := by
+  have := (parseUnary_good fuel _ _ _ h).inner
+  simp only [Inner] at this
+  exact ⟨this.1, rfl⟩
+
+/-- **group_overrides**: a parenthesised text is parsed by an independent run of the binary-level parser on the text
+between the parentheses, and the resulting group is a leaf for the enclosing chain (so its inside is never
+re-ordered against the operators outside). -/
+theorem group_overrides (fuel : Nat) (text gt : List Char) (e : Expr) (rest : List Char)
+    (hopen : scanGroupOpen text = some gt) (h : parseUnary (fuel + 1) text = .ok (e, rest)) :
+    ∃ inner nt, parseBinary fuel gt = .ok (inner, nt) ∧ scanClose nt = some rest ∧ e = .group inner ∧
+      IsOperand e ∧ WFPrec inner := by
+  simp only [parseUnary, hopen] at h
+  split at h
+  · cases h
+  · rename_i inner nt hb
+    split at h
+    · cases h
+    · rename_i r hclose
+      simp only [Except.ok.injEq, Prod.mk.injEq] at h
+      obtain ⟨rfl, rfl⟩ := h
+      exact ⟨inner, nt, hb, hclose, rfl, rfl, (binaryWith_good (parseUnary_good fuel) _ _ _ _ hb).wf⟩
+
+/-- **fuel_sufficient**: fuel = text length is enough.  Every recursive call of the parser is made on a strictly shorter
+text (`parseUnary_short`, `consumed`), so the fuel marker never appears: no parse fails for lack of fuel. -/
+theorem fuel_sufficient (fuel : Nat) (text : List Char) (hf : text.length ≤ fuel) (l : List Char) :
+    parseUnary fuel text ≠ .error (fuelMsg, l) ∧ parseBinary fuel text ≠ .error (fuelMsg, l) := by
+  constructor
+  · intro h
+    rcases (parseUnary_err fuel _ _ _ h).2 with hm | ⟨_, hk⟩
+    · exact fuelMsg_not_Msg hm
+    · omega
+  · intro h
+    rcases (parseBinary_err fuel _ _ _ h).2 with hm | ⟨_, hk⟩
+    · exact fuelMsg_not_Msg hm
+    · omega
+
+/-- **reject_is_parser_error**: the only failure value of `parse_expression` is a parser error carrying one of the two
+error texts and a column that points at the start of a suffix of the text (the remaining text where parsing stopped):
+`column + len(remaining) = len(text) + 1` with no truncation in the subtraction, hence `1 ≤ column ≤ len(text) + 1`. -/
+theorem reject_is_parser_error (s : String) (err : ParseErr) (h : parseExpr s = .error err) :
+    (err.error = "Syntax error" ∨ err.error = "Unmatched parenthesis") ∧
+    (∃ line, line <:+ s.toList ∧ err.column + line.length = s.length + 1) ∧
+    1 ≤ err.column ∧ err.column ≤ s.length + 1 := by
+  have hlen : s.toList.length = s.length := String.length_toList
+  simp only [parseExpr, parseExprL] at h
+  split at h
+  · rename_i e nt hb
+    split at h
+    · cases h
+    · simp only [Except.error.injEq] at h
+      subst h
+      have hsuf := (binaryWith_short _ _ _ _ _ hb).1
+      have := hsuf.length_le
+      exact ⟨Or.inl rfl, ⟨nt, hsuf, by simp only; omega⟩, by simp, by simp only; omega⟩
+  · rename_i m l hb
+    simp only [Except.error.injEq] at h
+    subst h
+    obtain ⟨hsuf, hm⟩ := parseBinary_err _ _ _ _ hb
+    have := hsuf.length_le
+    refine ⟨?_, ⟨l, hsuf, by simp only; omega⟩, by simp, by simp only; omega⟩
+    rcases hm with hm | ⟨_, hk⟩
+    · exact hm
+    · omega
+
+/-- **accept_faithful**: accepted text is never silently re-interpreted.  If `parse_expression` accepts `s` with tree
+`e`, then `s` *is* a spelling of exactly the in-order token sequence of `e` (`toks e`: operands, operators, parentheses,
+`name(`, commas): the text is `(whitespace* spelling-of-tokenᵢ)*` followed by whitespace only, where a spelling is a
+member of the token pattern's language denoting the token's value (`Spell`).  No character of the text is skipped, no
+token is invented, dropped or re-ordered, and trailing text is not ignored. -/
+theorem accept_faithful (s : String) (e : Expr) (h : parseExpr s = .ok e) : Lexes s.toList (toks e) := by
+  obtain ⟨rest, hb, hblank⟩ := (parseExpr_ok_iff s e).mp h
+  obtain ⟨pre, ht, hseg⟩ := (binaryWith_good (parseUnary_good _) _ _ _ _ hb).seg
+  refine ⟨pre, rest, ht, hseg, ?_⟩
+  obtain ⟨ws, hws, hsp⟩ := skipWs_split rest
+  have : skipWs rest = [] := by simpa using hblank
+  rw [this, List.append_nil] at hws
+  rw [hws]; exact hsp
+
+/-! ### non-vacuity at text level -/
+
+example : parseExpr "a + b * c ** d - e" =
+    .ok (.binary .sub (.binary .add (v "a") (.binary .mul (v "b") (.binary .pow (v "c") (v "d")))) (v "e")) := by rfl
+
+/-- unary binds tighter than `**`; parentheses override; a call, a string with an escape, a bracketed name, `1.5e+3` -/
+example : parseExpr "-a ** b" = .ok (.binary .pow (.unary .neg (v "a")) (v "b")) := by rfl
+example : parseExpr "(a + b) * c" = .ok (.binary .mul (.group (.binary .add (v "a") (v "b"))) (v "c")) := by rfl
+example : parseExpr " ff( 1.5e+3 ,'it\\'s', [x y] )\t" =
+    .ok (.function (.user "ff") [.number 1500, .string "it's", v "x y"]) := by rfl
+example : parseExpr "-5 + +5" = .ok (.binary .add (.unary .neg (.number 5)) (.number 5)) := by rfl
+
+/-- all 14 operators in one text -/
+example : parseExpr "a || b && c == d != e <= f < g >= h > i + j - k * l / m % n ** o" =
+    .ok (.binary .or (v "a") (.binary .and (v "b") (.binary .ne (.binary .eq (v "c") (v "d"))
+      (.binary .gt (.binary .ge (.binary .lt (.binary .le (v "e") (v "f")) (v "g")) (v "h"))
+        (.binary .sub (.binary .add (v "i") (v "j"))
+          (.binary .mod (.binary .div (.binary .mul (v "k") (v "l")) (v "m")) (.binary .pow (v "n") (v "o")))))))) := by rfl
+
+/-- the hypotheses of the theorems are inhabited: `accept_faithful`, `parse_deep_wf` on a nested text … -/
+example : Lexes "-(a + b) * ff(c, !d)".toList
+    (toks (.binary .mul (.unary .neg (.group (.binary .add (v "a") (v "b")))) (.function (.user "ff") [v "c", .unary .not (v "d")]))) :=
+  accept_faithful "-(a + b) * ff(c, !d)" _ (by rfl)
+
+example : HWF (.binary .mul (.unary .neg (.group (.binary .add (v "a") (v "b")))) (.function (.user "ff") [v "c", .unary .not (v "d")])) :=
+  parse_deep_wf "-(a + b) * ff(c, !d)" _ (by rfl)
+
+/-- … and the rejections: trailing text, unbalanced parenthesis, a one-letter call, an operator without operand -/
+example : parseExpr "a b" = .error ⟨"Syntax error", 2⟩ := by rfl
+example : parseExpr "(a" = .error ⟨"Unmatched parenthesis", 1⟩ := by rfl
+example : parseExpr "f(x)" = .error ⟨"Syntax error", 2⟩ := by rfl
+example : parseExpr "a ** " = .error ⟨"Syntax error", 5⟩ := by rfl
+example : parseExpr "1e5" = .error ⟨"Syntax error", 2⟩ := by rfl
+
+/-- the backtracking cases of the string / bracket patterns -/
+example : parseExpr "'abc\\'" = .ok (.string "abc\\") := by rfl
+example : parseExpr "[   ]" = .ok (v " ") := by rfl
 
 end C02
